@@ -38,7 +38,8 @@ def unit(job, variant, pi, seed, length, per_key, only=None):
             if len(agg["aliases"]) < 4 and a not in agg["aliases"]:
                 agg["aliases"].append(a)
         if len(out["mismatches"]) < 5:
-            for mm in complib.classification_mismatches(list(call["args"]), gen_effects.ty_of_annotation, gen_effects.PRIM):
+            for mm in complib.classification_mismatches([call["owner"]] + list(call["args"]), gen_effects.ty_of_annotation,
+                                                        gen_effects.PRIM):
                 if mm not in out["mismatches"]:
                     out["mismatches"].append(f"{key}: {mm}")
         problem = complib.purity_check(call)
@@ -184,6 +185,7 @@ def main(ck: Check):
         "results_derived_fresh": sum(1 for e in entries.values() if e["resultTag"] in ("fresh", "prim")),
         "results_possibly_aliasing_the_input": sorted(k for k, e in entries.items() if e["kind"] == "reducer" and e["resultTag"] == "shared"),
         "tainted_fields": sorted({t for e in entries.values() for t in e["taint"]}),
+        "library_functions_called_but_not_inlined": dict(__import__("gen_effects").EXTERNALS),
         "explanation": "PROVED (Simaple.Props.C08_Effects, regenerated from the source on every run): for every reducer and view "
                        "method of every shipped component class except the listed path-correlated one, on every heap and for every "
                        "argument, at every point of the call no object that existed before the call is written. PROVED "
